@@ -449,8 +449,11 @@ def _judge(ctx, facet, pred, result, expected, check_index, ordered, rtol=1e-9, 
     symptoms = []
 
     def report(symptom, msg):
+        p = pred(symptom, result=result, expected=expected)
+        if p != "other" and symptom in ("length", "values"):
+            symptom = "rows"            # one mechanism, one label: lost/duplicated/NaN-filled rows
         symptoms.append(symptom)
-        ctx.violation("%s:%s:%s" % (facet, pred(symptom), symptom), msg, got=_short(result), expected=_short(expected), **detail)
+        ctx.violation("%s:%s:%s" % (facet, p, symptom), msg, got=_short(result), expected=_short(expected), **detail)
 
     # 1 -- kind, columns, length, rows as a multiset (dtypes apart)
     m = frames.compare(result, expected, ordered=False, rtol=rtol, check_index=check_index, check_dtype=False)
@@ -464,7 +467,7 @@ def _judge(ctx, facet, pred, result, expected, check_index, ordered, rtol=1e-9, 
                 if frames.compare(result, expected, ordered=False, rtol=rtol, check_index=True, check_dtype=False, check_names=False) is None:
                     sym = "index-name"
         report(sym, m[1])
-        if pred(sym) != "other" or sym in ("kind", "columns"):
+        if pred(sym, result=result, expected=expected) != "other" or sym in ("kind", "columns"):
             return symptoms
     # 2 -- dtypes
     md = frames.compare(result.iloc[:0], expected.iloc[:0], ordered=True, check_index=False, check_dtype=True) \
@@ -545,10 +548,24 @@ def _rkeys(kw, L, R):
     return ["@index" if (x not in R.columns and x == R.index.name) else x for x in k]
 
 
+def _only_null_fill_upcasts(result, expected):
+    """every dtype difference is int64<->float64 or bool<->object: the upcast pandas applies when a join
+    leaves holes, decided on the whole frame by pandas and per partition by dask."""
+    pairs = {("int64", "float64"), ("float64", "int64"), ("bool", "object"), ("object", "bool")}
+    try:
+        diffs = [(str(a), str(b)) for a, b in zip(result.dtypes, expected.dtypes) if str(a) != str(b)]
+    except Exception:  # noqa: BLE001
+        return False
+    diffs = [d for d in diffs if not (set(d) <= {"object", "str", "string"})]
+    return bool(diffs) and all(d in pairs for d in diffs)
+
+
 def _merge_pred(case, f):
     how, form, kd = case["how"], case["form"], case["kd"]
 
-    def pred(symptom, exc=None):
+    def pred(symptom, exc=None, result=None, expected=None):
+        if symptom == "dtype" and result is not None and _only_null_fill_upcasts(result, expected):
+            return "null-fill-upcast-decided-per-partition"
         if exc is not None and form in ("ci", "ic") and kd == "dt" and "Cannot cast DatetimeIndex" in str(exc):
             return "column-index&datetime-key&how-keeps-index-side-rows"
         nl, nr, npart = f.get("nl", 0), f.get("nr", 0), case["npart"]
@@ -738,7 +755,7 @@ def _asof_frames(case):
 
 
 def _asof_pred(case, f):
-    def pred(symptom):
+    def pred(symptom, exc=None, result=None, expected=None):
         return "other"
     return pred
 
@@ -848,7 +865,7 @@ def _shift_index(idx, last):
 def _concat_pred(case, f):
     fds = case["frames"]
 
-    def pred(symptom):
+    def pred(symptom, exc=None, result=None, expected=None):
         if case["facet"] == "concat0":
             cat = [fd["kind"] == "frame" and "k" in fd["cols"] for fd in fds]
             if any(cat) and any(fd["kind"] == "series" for fd in fds) and not all(fd["kind"] == "series" for fd in fds):
@@ -1026,7 +1043,7 @@ ASSUMPTIONS = [
     "dask.dataframe is imported through the pyarrow import stub (pandas-backed strings, convert-string=False)",
     "scheduler='sync'; the distributed/p2p shuffle is not reachable in this environment",
 ]
-BUDGET = {"quick": 60, "thorough": 600}
+BUDGET = {"quick": 90, "thorough": 600}
 FLOORS = {"quick": {"evaluations": 10, "distinct_nontrivial": 5}, "thorough": {"evaluations": 10, "distinct_nontrivial": 5}}
 EXHAUSTIVE_SPACE = None
 CASE_TIMEOUT = 90
